@@ -101,14 +101,13 @@ def rule_paths(env, shared):
             # a function whose entry is held: continuation closures and helpers only called from held sites
             if h0[0] and T.admission_fact(ctx, 0) is None:
                 entry_held = True
-            hands_over = set()
-            for bi, blk in enumerate(b.blocks):
-                for st in blk["stmts"]:
-                    if st["k"] == "assign" and st["rv"]["k"] == "aggregate" and st["rv"].get("variant_name") == "Some" \
-                            and st["rv"]["adt"].endswith("Option"):
-                        adm = T.admission_fact(ctx, bi)
-                        if adm is not None and unref(ev.operand(ctx, st["rv"]["ops"][0])) == unref(adm[1]):
-                            hands_over.add(bi)
+            # definition sites of the return value that hand the ticket to the caller (Some(ticket) / a boolean that is
+            # true exactly for the admitted caller): block -> the value itself implies the end flag was seen false
+            hands_over = {}
+            if not b.is_closure:
+                for bi, (okk, gated_v, why, hands) in T.handover_sites(b, sa).items():
+                    if okk and hands:
+                        hands_over[bi] = gated_v
             done_store_blocks = set()
             for e in evs:
                 if e.kind == "atomic" and e.info["op"] == "store" and T.role_of(e.info["place"])[0] == "done":
@@ -159,7 +158,7 @@ def rule_paths(env, shared):
                         done_after_none = True
                     if bb in hands_over:
                         handed = True
-                        if not (admitted and gated):
+                        if not (admitted and (gated or hands_over[bb])):
                             bad = bad or ("T4", bb, "the ticket is handed to the caller (Some(ticket)) on a path that was not "
                                                     "admitted on equality and gated by the end flag")
                 last = path[-1]
